@@ -125,6 +125,10 @@ def same_iface(kind, ir, gold, truth_kind):
         if "default" in p and p["default"] is not None and p["default"] != T.NoneStr and name in (ir.get("params") or {}) and "default" not in q and \
                 not any(c_.startswith("param/default") and d_.get("param") == name for c_, d_ in its):
             its.append(("param/default-lost", {"param": name, "typ": p.get("typ"), "in": repr(p["default"]), "out": "<absent>"}))
+        if "default" in p and isinstance(p["default"], (int, float, bool, str)) and p["default"] != T.NoneStr and "default" in q and \
+                (q["default"] != p["default"] or type(q["default"]) is not type(p["default"])) and \
+                not any(c_.startswith("param/default") and d_.get("param") == name for c_, d_ in its):
+            its.append(("param/default-changed", {"param": name, "typ": p.get("typ"), "in": repr(p["default"]), "out": repr(q["default"])}))
         if p.get("doc") and "\n" not in p["doc"] and "\n" in (q.get("doc") or "").strip():
             its.append(("param/doc/line-break-inserted", {"param": name, "in": p["doc"], "out": q.get("doc")}))
     return its
